@@ -64,7 +64,7 @@ type authCase struct {
 const topic = "t"
 
 var mechs = []string{"PLAIN", "SCRAM-SHA-256", "SCRAM-SHA-512"}
-var entries = []string{"dial", "dialleader", "client", "writer", "newwriter", "readerseek"}
+var entries = []string{"dial", "dialleader", "client", "writer", "newwriter", "readerseek", "groupreader"}
 
 // every fault, with the step at which the exchange fails (0 = handshake, n = authenticate round n)
 var faults = []struct {
@@ -446,7 +446,7 @@ func run(tb ev.TB, c authCase) {
 }
 
 func family(entry string) string {
-	if entry == "dial" || entry == "dialleader" || entry == "readerseek" {
+	if entry == "dial" || entry == "dialleader" || entry == "readerseek" || entry == "groupreader" {
 		return "dialer"
 	}
 	return "transport"
@@ -565,6 +565,56 @@ func call(c authCase, nw *memnet.Network, cl *fakecluster.Cluster, mech sasl.Mec
 		if err := r.SetOffsetAt(ctx, time.UnixMilli(1)); err != nil {
 			res.dialErr = err
 			return
+		}
+	case "groupreader":
+		// a Reader in consumer-group mode with the mechanism in its Dialer: the connections to the coordinator (FindCoordinator,
+		// JoinGroup, SyncGroup, OffsetFetch, Heartbeat) are opened by the group machinery, the fetch connections by the
+		// reader itself; the DefaultDialer is redirected as for "readerseek".  The call counts as completed when the member has
+		// fetched its committed offsets; with a fault in the exchange the reader keeps retrying in the background, so the
+		// call gives up (and closes the reader) once the broker has seen an exchange fail.
+		saved := kafka.DefaultDialer
+		kafka.DefaultDialer = &kafka.Dialer{DialFunc: nw.Dial, Timeout: callTimeout, ClientID: "c18-default"}
+		defer func() { kafka.DefaultDialer = saved }()
+		r := kafka.NewReader(kafka.ReaderConfig{Brokers: []string{bootstrap}, GroupID: "g-c18", Topic: topic, MinBytes: 1, MaxBytes: 1 << 20, MaxWait: 50 * time.Millisecond,
+			HeartbeatInterval: 50 * time.Millisecond, SessionTimeout: 2 * time.Second, RebalanceTimeout: 2 * time.Second, JoinGroupBackoff: 5 * time.Second,
+			ReadBackoffMin: time.Millisecond, ReadBackoffMax: 5 * time.Millisecond, WatchPartitionChanges: false,
+			Dialer: &kafka.Dialer{DialFunc: nw.Dial, SASLMechanism: mech, Timeout: callTimeout, ClientID: "c18"}})
+		closed := false
+		*cleanup = append(*cleanup, func() {
+			if !closed {
+				r.Close()
+			}
+		})
+		start, failedSince := time.Now(), time.Time{}
+		for {
+			joined := false
+			for _, e := range cl.Journal() {
+				if e.ApiKey == 9 && e.Tag != "before-auth" {
+					joined = true
+				}
+			}
+			if joined {
+				return
+			}
+			if failedSince.IsZero() {
+				for _, e := range cl.AuthEvents() {
+					if e.Verdict != "ok" {
+						failedSince = time.Now()
+					}
+				}
+				for _, cs := range nw.Conns() {
+					if cs.Dead || cs.ClientClosed {
+						failedSince = time.Now()
+					}
+				}
+			}
+			if (!failedSince.IsZero() && time.Since(failedSince) > 30*time.Millisecond) || time.Since(start) > 4*time.Second {
+				res.dialErr = fmt.Errorf("the group member had not fetched its offsets %v after NewReader", time.Since(start).Round(time.Millisecond))
+				closed = true
+				r.Close()
+				return
+			}
+			time.Sleep(2 * time.Millisecond)
 		}
 	case "newwriter":
 		// the pre-0.4 constructor: the SASL mechanism travels in WriterConfig.Dialer and NewWriter converts the Dialer into
